@@ -83,8 +83,8 @@ func (e *bndEngine) genPrePost(fn *ssa.Function) {
 			add(&pre, candLeq(candPre, linConst(0), linAtom(p), names[p]+" ≥ 0"))
 			add(&pre, candLeq(candPre, linConst(1), linAtom(p), names[p]+" ≥ 1"))
 			if e.checkWrap {
-				add(&pre, candLeq(candPre, linAtom(p), linConst(magBound), names[p]+" ≤ 2^41"))
-				add(&pre, candLeq(candPre, linConst(-magBound), linAtom(p), names[p]+" ≥ −2^41"))
+				add(&pre, candLeq(candPre, linAtom(p), linConst(e.magBound()), names[p]+" ≤ mag"))
+				add(&pre, candLeq(candPre, linConst(-e.magBound()), linAtom(p), names[p]+" ≥ −mag"))
 			}
 			for _, q := range ints {
 				if p != q {
@@ -141,8 +141,8 @@ func (e *bndEngine) genPrePost(fn *ssa.Function) {
 		rn := fmt.Sprintf("result%d", j)
 		add(&post, candLeq(candPost, linConst(0), linAtom(r), rn+" ≥ 0"))
 		if e.checkWrap {
-			add(&post, candLeq(candPost, linAtom(r), linConst(magBound), rn+" ≤ 2^41"))
-			add(&post, candLeq(candPost, linConst(-magBound), linAtom(r), rn+" ≥ −2^41"))
+			add(&post, candLeq(candPost, linAtom(r), linConst(e.magBound()), rn+" ≤ mag"))
+			add(&post, candLeq(candPost, linConst(-e.magBound()), linAtom(r), rn+" ≥ −mag"))
 		}
 		for _, p := range ints {
 			add(&post, candLeq(candPost, linAtom(p), linAtom(r), rn+" ≥ "+names[p]))
@@ -250,7 +250,7 @@ func (e *bndEngine) genInv(ts *trackedStruct) {
 	for _, a := range ints {
 		add(candLeq(candInv, linConst(0), linAtom(a), nm(a)+" ≥ 0"))
 		if e.checkWrap {
-			add(candLeq(candInv, linAtom(a), linConst(magBound), nm(a)+" ≤ 2^41"))
+			add(candLeq(candInv, linAtom(a), linConst(e.magBound()), nm(a)+" ≤ mag"))
 		}
 		for _, k := range e.fieldConsts(ts, a) {
 			add(candLeq(candInv, linAtom(a), linConst(k), fmt.Sprintf("%s ≤ %d", nm(a), k)))
@@ -411,8 +411,8 @@ func (c *fnCtx) genBlockCands() {
 			pid := c.id(phi)
 			add(candLeq(candBlock, linConst(0), pa, pid+" ≥ 0"))
 			if c.e.checkWrap {
-				add(candLeq(candBlock, pa, linConst(magBound), pid+" ≤ 2^41"))
-				add(candLeq(candBlock, linConst(-magBound), pa, pid+" ≥ −2^41"))
+				add(candLeq(candBlock, pa, linConst(c.e.magBound()), pid+" ≤ mag"))
+				add(candLeq(candBlock, linConst(-c.e.magBound()), pa, pid+" ≥ −mag"))
 			}
 			// counters that advance no faster than another counter: φ ≤ ψ + k for a phi ψ
 			// of this block or of a dominating one (line ≤ i + 1)
@@ -646,7 +646,18 @@ func (c *fnCtx) obligations() []bndObligation {
 			case token.ADD, token.SUB, token.MUL:
 				// no-wrap: the mathematical result of an offset/size computation fits the machine int
 				// (everything above treats + − × as mathematical)
-				if !c.e.checkWrap || c.intSize() != 64 || !isIntType(x.Type()) || isUnsigned(x.Type()) || typeBits(x.Type()) != 64 {
+				if !c.e.checkWrap || !isIntType(x.Type()) || isUnsigned(x.Type()) {
+					return
+				}
+				// operations of machine-int width: int64 (and int) on a 64-bit target, int and int32
+				// on a 32-bit one
+				if bk, ok := x.Type().Underlying().(*types.Basic); !ok {
+					return
+				} else if c.e.is32() {
+					if bk.Kind() != types.Int && bk.Kind() != types.Int32 {
+						return
+					}
+				} else if typeBits(x.Type()) != 64 {
 					return
 				}
 				l := c.lin(x)
@@ -654,10 +665,11 @@ func (c *fnCtx) obligations() []bndObligation {
 					return // constant, or not linearisable (opaque product): nothing to state
 				}
 				o := mk(in, "no-wrap", render(x))
-				q1, ok1 := leq(l, linConst(wrapBound), "result ≤ 2^60")
-				goal(o, q1, ok1, "result ≤ 2^60")
-				q2, ok2 := leq(linConst(-wrapBound), l, "result ≥ −2^60")
-				goal(o, q2, ok2, "result ≥ −2^60")
+				wn, _, _ := c.e.wrapNames()
+				q1, ok1 := leq(l, linConst(c.e.wrapBound()), "result ≤ "+wn)
+				goal(o, q1, ok1, "result ≤ "+wn)
+				q2, ok2 := leq(linConst(-c.e.wrapBound()), l, "result ≥ −"+wn)
+				goal(o, q2, ok2, "result ≥ −"+wn)
 			}
 		case *ssa.MakeSlice:
 			for _, sz := range []ssa.Value{x.Len, x.Cap} {
